@@ -246,6 +246,8 @@ def run(ctx):
     qtd = ctx.consts.get("pyxform.question_type_dictionary", "QUESTION_TYPE_DICT", "C13.R1")
     for a, b in (("int", "integer"), ("string", "text"), ("image", "photo"), ("datetime", "dateTime"), ("select one", "select1") if "select1" in qtd else ("int", "integer")):
         r1.check(qtd.get(a) is not None and qtd.get(a) == qtd.get(b), f"types {a!r}=={b!r}", "equivalent type spellings have equal table entries", "pyxform/question_type_dictionary.py")
+    from .c05 import truth_conversion_eval
+    truth_conversion_eval(ctx, r1, "C13.R1")
     rules.append(r1)
 
     # ------------------------------------------------------------------ R2
